@@ -49,7 +49,7 @@ static void lst_make_sequence(vp_rng_t* r, int mode, uint64_t idx, seq_t* s)
         size_t plen = (size_t)vp_rng_below(r, (vp_rng_next(r) & 3) ? 64 : 1401);
         size_t n = build_valid(r, b, plen, (uint8_t)d);
         Avtp_Cvf_t* c = (Avtp_Cvf_t*)b;
-        switch ((idx + (uint64_t)d * 5) % 14) {
+        switch (((idx % 15) == 13) ? 13 : (idx + (uint64_t)d * 5) % 15) {
         case 0: name = "valid"; if (idx & 16) h264ish(r, b + 28, n - 28); break;
         case 1: name = "data-length-below-h264-header"; Avtp_Cvf_SetStreamDataLength(c, (uint16_t)vp_rng_below(r, 4)); break;
         case 2: name = "data-length-max"; Avtp_Cvf_SetStreamDataLength(c, 65535); break;
@@ -63,6 +63,19 @@ static void lst_make_sequence(vp_rng_t* r, int mode, uint64_t idx, seq_t* s)
         case 10: name = "bit-flips"; mutate_bytes(r, b, n < 28 ? n : 28, 1 + (int)vp_rng_below(r, 3)); break;
         case 11: name = "wrong-subtype"; b[0] = (uint8_t)vp_rng_next(r); break;
         case 12: name = "max-payload-h264-like"; n = build_valid(r, b, 1400 - (size_t)((idx >> 4) % 3), 3); h264ish(r, b + 28, n - 28); break;
+        case 13: {   /* fragments of one access unit: valid packets that share one presentation time, bare or start-coded NAL units,
+                      * whose lengths add up to just below / exactly the size of one queue entry (1400 bytes) */
+            name = "same-timestamp-fragments";
+            static size_t sum;
+            if (d == 0) sum = 0;
+            size_t want = d == 0 ? 600 + (size_t)vp_rng_below(r, 200) : (sum < 1400 ? 1400 - sum - (size_t)vp_rng_below(r, 8) : (size_t)vp_rng_below(r, 32));
+            if (want > 1400) want = 1400;
+            n = build_valid(r, b, want, (uint8_t)d);
+            Avtp_Cvf_SetAvtpTimestamp(c, 0x5000u + (uint32_t)idx);
+            if (want >= 4) { if (vp_rng_next(r) & 1) { b[28] = 0; b[29] = 0; b[30] = 1; } else b[28] |= 0x40; }
+            sum += want;
+            if (nd < 2) nd = 2;
+            } break;
         default: name = "data-length-random"; Avtp_Cvf_SetStreamDataLength(c, (uint16_t)vp_rng_next(r)); break;
         }
         seq_add(s, b, n);
